@@ -99,12 +99,18 @@ var c06Spellings = []c06Spelling{
 	{"remote", func(r *http.Request, a string) { r.RemoteAddr = hostPort(a, "1111") }},
 	{"remote-other-port", func(r *http.Request, a string) { r.RemoteAddr = hostPort(a, "60999") }},
 	{"xff", func(r *http.Request, a string) { r.RemoteAddr = "172.16.0.9:1"; r.Header.Set("X-Forwarded-For", a) }},
-	{"xff-list", func(r *http.Request, a string) { r.RemoteAddr = "172.16.0.8:1"; r.Header.Set("X-Forwarded-For", a+", 172.16.0.1") }},
+	{"xff-list", func(r *http.Request, a string) {
+		r.RemoteAddr = "172.16.0.8:1"
+		r.Header.Set("X-Forwarded-For", a+", 172.16.0.1")
+	}},
 	{"xff-list-nospace", func(r *http.Request, a string) {
 		r.RemoteAddr = "172.16.0.7:1"
 		r.Header.Set("X-Forwarded-For", a+",172.16.0.1,172.16.0.2")
 	}},
-	{"xff-list-ows", func(r *http.Request, a string) { r.RemoteAddr = "172.16.0.3:1"; r.Header.Set("X-Forwarded-For", a+" , 172.16.0.1") }},
+	{"xff-list-ows", func(r *http.Request, a string) {
+		r.RemoteAddr = "172.16.0.3:1"
+		r.Header.Set("X-Forwarded-For", a+" , 172.16.0.1")
+	}},
 	{"real-ip", func(r *http.Request, a string) { r.RemoteAddr = "172.16.0.6:1"; r.Header.Set("X-Real-IP", a) }},
 }
 
